@@ -1,4 +1,6 @@
 """C09 -- multi-threaded decoding is safe and equal to single-threaded decoding.
+(DecRowDeps.tla adds the data dependencies between row jobs across TILE COLUMNS: recon top-down per column, deblocking of
+row r only after rows r-1..r+1 are reconstructed in every column, CDEF after deblocking of r-1..r+1.)
 Model: DecMT.tla -- the frame-level stage/row protocol (row hand-out under the row mutex, done maps, start
 flags, the motion-field and end-of-frame barriers) explored exhaustively for 2-3 threads x 2-3 rows x 2 frames:
 each row once per stage, stage ordering, no stale start flag, resets only behind the barrier, completion.
@@ -25,6 +27,17 @@ def run(res):
         res.case("tlc:" + cfg)
         if not r["ok"]:
             res.violation("DecMT model (%s) violates %s" % (cfg, r["violated"]), r["out"][-6000:])
+    # tile-column data dependencies of the row jobs (DecRowDeps.tla): the code's wait condition keeps intra prediction from
+    # reading deblocked lines; the one-index-away variant must violate it (vacuity guard), columns must be able to run ahead
+    r = vlib.tlc("DecRowDeps", "DecRowDeps.cfg", workers=4, timeout=900)
+    res.tlc_stats(r)
+    res.case("tlc:DecRowDeps")
+    if not r["ok"]:
+        res.violation("DecRowDeps model violates %s" % r["violated"], r["out"][-4000:])
+    for cfg, inv in (("DecRowDeps_col0.cfg", "NoHazard"), ("DecRowDeps_wit.cfg", "NeverAhead")):
+        g = vlib.tlc("DecRowDeps", cfg, workers=4, timeout=900)
+        if g["ok"] or g["violated"] != inv:
+            raise vlib.ModelFailure("DecRowDeps guard %s: expected a violation of %s" % (cfg, inv))
     rng = random.Random(res.seed * 67 + 14)
     cs = []
 
